@@ -9,12 +9,12 @@ TEXT_POOL = list("abcxyz ABC 019.,;:!?-'\"") + ["&", "<", ">", "\u00a0", "\u2003
 BLANK_POOL = [" ", "\n", "\t", "\u00a0", "\u2003", "\u3000", "\r"]
 VAL_POOL = list("abc 12%#.;") + ["&", "<", ">", "'", '"', "é", "中", "=", "/"]
 # attributes the DFXP reader looks at must keep benign values (styles / regions are C12 / C13's subject)
-P_EXTRA = [("region", "r1"), ("style", "s1"), ("xml:id", "p%d"), ("tts:textalign", "center"), ("role", None),
+P_EXTRA = [("region", "r1"), ("style", "s1"), ("xml:id", "p%d"), ("tts:textAlign", "center"), ("role", None),
            ("data-x", None)]
 DIV_EXTRA = [("region", "r1"), ("style", "s1"), ("xml:id", "d%d"), ("role", None)]
 TT_EXTRA = [("xmlns", "http://www.w3.org/ns/ttml"), ("xmlns:tts", "http://www.w3.org/ns/ttml#styling"),
             ("xmlns:ttp", "http://www.w3.org/ns/ttml#parameter"), ("role", None)]
-SPAN_EXTRA = [("tts:color", "red"), ("tts:fontstyle", "italic"), ("role", None)]
+SPAN_EXTRA = [("tts:color", "red"), ("tts:fontStyle", "italic"), ("tts:fontFamily", "monospace"), ("role", None)]
 LANGS = ["en-US", "es", "pt-BR", "fr", "de-AT"]
 
 
